@@ -9,6 +9,7 @@ def run(ctx):
     gr.rule_codec_agreement(ctx, g, "R01.1")
     gr.rule_field_diagonal(ctx, g, "R01.2")
     gr.rule_repeatable_records(ctx, g, "R01.10")
+    gr.rule_strings_are_utf8(ctx, g, "R01.11")
     # packed STRANS flag word: both sides place each flag on the manual's bit, hence on the same bit
     gr.rule_strans_bits_writer(ctx, g, "R01.2w")
     gr.rule_emission_purity(ctx, g, "R01.6")
